@@ -29,6 +29,7 @@ Inductive rtext :=
 | TxServerError      (* "Server error."  : an exception escaped the handler *)
 | TxAuth             (* no such mechanism / authentication failed / cancelled / broke *)
 | TxCompile          (* CHECKSCRIPT: the compiler's message *)
+| TxNotSupported     (* "Action not supported." : the store raised NotImplementedError *)
 | TxOther.           (* never produced by the model *)
 
 (* what CAPABILITY / the greeting shows that depends on the state *)
@@ -129,6 +130,53 @@ Definition fstate_run (s : fstate) (c : cmd) : resp * fstate :=
       else (r_no RcNone TxNone, s')
     | Raise s' _ => (r_server_error, s')
     end
+  | CCheckScript data =>
+    if compiles data then (r_ok, s) else (r_no RcNone TxCompile, s)
+  | _ => (r_bad_command, s)
+  end.
+
+(* ---------------------------------- the maildir backend's store (one script) *)
+(* pymap/backend/maildir FilterSet = pymap.filter.SingleFilterSet over the file
+   <user dir>/dovecot.sieve: the state is the file's content, [None] when the
+   file does not exist ([Some []] is an existing empty script).  The only
+   name is "active" and a stored script is always the active one.
+   FilterState.run over SingleFilterSet:
+     put       other names raise NotImplementedError (fix: they used to be
+               dropped with OK);
+     delete    "active" unlinks the file (also when there is none), others KeyError;
+     rename, clear_active  NotImplementedError;
+     set_active  "active" -> nothing to do (also when there is no script);
+     get       "active" and the file exists, else KeyError;
+     get_all   ("active", ["active"]) when the file exists, else (None, []). *)
+Definition mstate := option bytes.
+Definition m_init : mstate := None.
+Definition kw_active : key := [97;99;116;105;118;101]%N.
+Definition r_not_supported : resp := r_no RcNone TxNotSupported.
+
+Definition mstate_run (s : mstate) (c : cmd) : resp * mstate :=
+  match c with
+  | CHaveSpace _ size =>
+    if fits size then (r_ok, s) else (r_no RcQuota TxNone, s)
+  | CPutScript name data =>
+    if fits (N.of_nat (length data)) then
+      if bytes_eqb name kw_active then (r_ok, Some data) else (r_not_supported, s)
+    else (r_no RcQuota TxNone, s)
+  | CListScripts =>
+    (mk_resp OK RcNone TxNone
+       (PList (match s with Some _ => [(kw_active, true)] | None => [] end)), s)
+  | CSetActive None => (r_not_supported, s)
+  | CSetActive (Some name) =>
+    if bytes_eqb name kw_active then (r_ok, s) else (r_no RcNonexistent TxNone, s)
+  | CGetScript name =>
+    if bytes_eqb name kw_active then
+      match s with
+      | Some data => (mk_resp OK RcNone TxNone (PScript data), s)
+      | None => (r_no RcNonexistent TxNone, s)
+      end
+    else (r_no RcNonexistent TxNone, s)
+  | CDeleteScript name =>
+    if bytes_eqb name kw_active then (r_ok, None) else (r_no RcNonexistent TxNone, s)
+  | CRenameScript _ _ => (r_not_supported, s)
   | CCheckScript data =>
     if compiles data then (r_ok, s) else (r_no RcNone TxCompile, s)
   | _ => (r_bad_command, s)
@@ -359,6 +407,27 @@ Definition spec_run (sp : sspec) (c : cmd) : resp * sspec :=
     end
   | CCheckScript d => if compiles d then (r_ok, sp) else (r_no RcNone TxCompile, sp)
   | _ => (r_bad_command, sp)
+  end.
+(* The same map restricted to what a one-script store offers: the only name
+   that can be bound is "active", a bound script is the active one, and
+   renaming / deactivating are not offered.  (Deleting the script — which is
+   the active one — is possible: see the refuted clause in Props/C19.v.) *)
+Definition spec1_run (sp : sspec) (c : cmd) : resp * sspec :=
+  let '(m, a) := sp in
+  match c with
+  | CPutScript n v =>
+    if fits cfg (N.of_nat (length v)) then
+      if bytes_eqb n kw_active then (r_ok, ((n, v) :: remove_key n m, Some n))
+      else (r_not_supported, sp)
+    else (r_no RcQuota TxNone, sp)
+  | CSetActive None => (r_not_supported, sp)
+  | CSetActive (Some n) =>
+    if bytes_eqb n kw_active then (r_ok, sp) else (r_no RcNonexistent TxNone, sp)
+  | CDeleteScript n =>
+    if bytes_eqb n kw_active then (r_ok, (remove_key n m, None))
+    else (r_no RcNonexistent TxNone, sp)
+  | CRenameScript _ _ => (r_not_supported, sp)
+  | _ => spec_run sp c       (* HAVESPACE, LISTSCRIPTS, GETSCRIPT, CHECKSCRIPT: as the map *)
   end.
 End Spec.
 
